@@ -2,7 +2,8 @@
 use crate::{coq::*, out::Sink, rng::Rng, Opts};
 use tracing_tunnel::{FromTracedValue, TracedValue, TracedValues};
 
-const NAMES: &[&str] = &["a", "b", "c", "d", "e", "f", "", "ключ", "a b", "A", "q\"uote", "message"];
+// neighbours in this list end up in one alphabet; several names are prefixes of others on purpose
+const NAMES: &[&str] = &["b", "c", "d", "a", "a b", "", "ключ", "A", "q\"uote", "me", "mess", "message", "e", "f"];
 
 pub const INT_BOUNDS: &[i128] = &[
     0, 1, -1, 2, 42, -42,
@@ -65,10 +66,10 @@ fn cop(op: &Op) -> String {
     }
 }
 
-fn observe(ret: Option<TracedValue>, m: &TracedValues<String>, probe: &[&str]) -> String {
+fn observe<K: AsRef<str> + Clone>(ret: Option<TracedValue>, m: &TracedValues<K>, probe: &[&str]) -> String {
     let fwd: Vec<(String, TracedValue)> = m.iter().map(|(k, v)| (k.to_owned(), v.clone())).collect();
     let back: Vec<(String, TracedValue)> = m.iter().rev().map(|(k, v)| (k.to_owned(), v.clone())).collect();
-    let into: Vec<(String, TracedValue)> = m.clone().into_iter().collect();
+    let into: Vec<(String, TracedValue)> = m.clone().into_iter().map(|(k, v)| (k.as_ref().to_owned(), v)).collect();
     // `&TracedValues` IntoIterator must agree with iter()
     let by_ref: Vec<(String, TracedValue)> = (&*m).into_iter().map(|(k, v)| (k.to_owned(), v.clone())).collect();
     let itlen = if cpairs(&by_ref) == cpairs(&fwd) { m.iter().len() } else { usize::MAX };
@@ -91,6 +92,15 @@ fn observe(ret: Option<TracedValue>, m: &TracedValues<String>, probe: &[&str]) -
     )
 }
 
+fn deser(l: &[(String, TracedValue)]) -> TracedValues<String> {
+    let body: Vec<String> = l
+        .iter()
+        .map(|(k, v)| format!("{}:{}", serde_json::to_string(k).unwrap(), serde_json::to_string(v).unwrap()))
+        .collect();
+    let text = format!("{{{}}}", body.join(","));
+    serde_json::from_str(&text).expect("deserialize values")
+}
+
 fn run_ops(ops: &[Op], probe: &[&str]) -> Vec<String> {
     let mut m: TracedValues<String> = TracedValues::new();
     let mut obs = vec![];
@@ -100,14 +110,58 @@ fn run_ops(ops: &[Op], probe: &[&str]) -> Vec<String> {
             Op::Insert(k, v) => ret = m.insert(k, v),
             Op::Extend(l) => m.extend(l),
             Op::FromIter(l) => m = l.into_iter().collect(),
-            Op::Deser(l) => {
-                let body: Vec<String> = l
-                    .iter()
-                    .map(|(k, v)| format!("{}:{}", serde_json::to_string(k).unwrap(), serde_json::to_string(v).unwrap()))
-                    .collect();
-                let text = format!("{{{}}}", body.join(","));
-                m = serde_json::from_str(&text).expect("deserialize values");
+            Op::Deser(l) => m = deser(&l),
+        }
+        obs.push(observe(ret, &m, probe));
+    }
+    obs
+}
+
+/// The same operations on a collection with borrowed keys (`TracedValues<&str>`, the type
+/// `from_values` / `from_record` / `from_event` produce).  All names are slices of one buffer, laid
+/// out so that a name that is a prefix of another name starts at the same address (as field names
+/// cut out of one larger string do).  Deserialization exists for owned keys only; its result is
+/// moved over entry by entry.
+fn run_ops_borrowed(ops: &[Op], probe: &[&str]) -> Vec<String> {
+    let mut names: Vec<&str> = probe.to_vec();
+    for op in ops {
+        match op {
+            Op::Insert(k, _) => names.push(k),
+            Op::Extend(l) | Op::FromIter(l) | Op::Deser(l) => names.extend(l.iter().map(|(k, _)| k.as_str())),
+        }
+    }
+    names.sort_by_key(|n| std::cmp::Reverse(n.len()));
+    names.dedup();
+    let mut buf = String::new();
+    let mut place: Vec<(&str, usize)> = vec![];
+    for n in &names {
+        if place.iter().any(|(m, _)| m == n) {
+            continue;
+        }
+        let start = match place.iter().find(|(m, _)| m.starts_with(n)) {
+            Some((_, start)) => *start,
+            None => {
+                buf.push_str(n);
+                buf.len() - n.len()
             }
+        };
+        place.push((n, start));
+    }
+    let buf: &str = &buf;
+    let key = |n: &str| -> &str {
+        let (_, start) = place.iter().find(|(m, _)| *m == n).expect("placed name");
+        &buf[*start..*start + n.len()]
+    };
+    let keyed = |l: Vec<(String, TracedValue)>| l.into_iter().map(|(k, v)| (key(&k), v)).collect::<Vec<_>>();
+    let mut m: TracedValues<&str> = TracedValues::new();
+    let mut obs = vec![];
+    for op in ops {
+        let mut ret = None;
+        match op.clone() {
+            Op::Insert(k, v) => ret = m.insert(key(&k), v),
+            Op::Extend(l) => m.extend(keyed(l)),
+            Op::FromIter(l) => m = keyed(l).into_iter().collect(),
+            Op::Deser(l) => m = deser(&l).into_iter().map(|(k, v)| (key(&k), v)).collect(),
         }
         obs.push(observe(ret, &m, probe));
     }
@@ -118,7 +172,15 @@ fn ops_case(sink: &mut Sink, idx: u64, kind: &str, ops: &[Op], probe: &[&str]) {
     if !sink.wants(idx) {
         return;
     }
-    let obs = run_ops(ops, probe);
+    let mut obs = run_ops(ops, probe);
+    // owned and borrowed keys must behave alike; when they do not, the deviating run is judged
+    let borrowed = run_ops_borrowed(ops, probe);
+    if borrowed != obs {
+        sink.bump("keys:borrowed-differs-from-owned");
+        obs = borrowed;
+    } else {
+        sink.bump("keys:borrowed-agrees-with-owned");
+    }
     let input = format!("{} {}", clist(ops.iter(), cop), clist(probe.iter(), |p| cstr(p)));
     let judge = format!("judge_ops {input} [{}]", obs.join("; "));
     // non-trivial: some name occurs at least twice in the inserted history
